@@ -192,6 +192,32 @@ func run(p *param) (r result) {
 	return result{cls: 0, tree: observe(tc), sig: tc.String()}
 }
 
+func revalidate(p *param) (cls int) {
+	defer func() {
+		if x := recover(); x != nil {
+			cls = 2
+		}
+	}()
+	a := p.abi()
+	orig := a.Type
+	a.Type = "uint256"
+	_ = a.Validate()
+	a.Type = orig
+	if err := a.Validate(); err != nil {
+		return 1
+	}
+	// and the tree now served is the one of the new text
+	tc, err := a.TypeComponentTree()
+	if err != nil {
+		return 1
+	}
+	fresh, err2 := p.abi().TypeComponentTree()
+	if err2 != nil || tc.String() != fresh.String() {
+		return 3
+	}
+	return 0
+}
+
 // other entry points must agree with TypeComponentTree: Validate (class) and SignatureString
 func runEntryPoints(p *param) (vcls int, sig string, scls int) {
 	func() {
@@ -273,6 +299,12 @@ func (g *gen) add(kind string, p *param) {
 		implDesc = "error: " + r.err
 	default:
 		implDesc = "PANIC: " + r.err
+	}
+	// Validate on a parameter whose type text was changed after an earlier Validate must reflect the new text
+	if rv := revalidate(p); rv != r.cls {
+		g.st.ImplFailures = append(g.st.ImplFailures, map[string]interface{}{
+			"what": "Validate after changing Type does not equal Validate of a fresh parameter", "param": p.json(),
+			"fresh_class": r.cls, "revalidate_class": rv})
 	}
 	vcls, sig2, scls := runEntryPoints(p)
 	if vcls != r.cls || scls != r.cls || (r.cls == 0 && sig2 != r.sig) {
@@ -750,6 +782,9 @@ func main() {
 			target = p.C[g.r.Intn(len(p.C))]
 		}
 		s, kind := g.mutate(target.T)
+		for try := 0; try < 6 && s == target.T; try++ {
+			s, kind = g.mutate(target.T)
+		}
 		target.T = s
 		g.add("mutation:"+kind, p)
 	}
